@@ -93,6 +93,15 @@ func c06Term(term string) (msg string, skip bool) {
 	if e2.IsErr || len(e2.List) != 1 || e2.List[0] != x {
 		return fmt.Sprintf("ExtractLicenses(%q) = [%q] but ExtractLicenses(%q) = %q (not a fixed point)", term, x, x, e2.List), false
 	}
+	for _, alt := range []string{"(" + term + ")", " " + term + " ", "((" + term + "))"} {
+		ea := Ext(alt)
+		if ea.Panic != "" {
+			return "", true
+		}
+		if ea.IsErr || len(ea.List) != 1 || ea.List[0] != x {
+			return fmt.Sprintf("ExtractLicenses(%q) = [%q] but ExtractLicenses(%q) = %q: redundant parentheses / spaces change the extracted term", term, x, alt, ea.List), false
+		}
+	}
 	a, b := Sat(term, []string{x}), Sat(x, []string{term})
 	if a.Panic != "" || b.Panic != "" {
 		return "", true
@@ -266,6 +275,25 @@ func c06Run(c *Ctx) {
 	for n := 2; n <= maxShape; n++ {
 		for _, t := range shapes[n] {
 			if !treeCase(t, distinctAtoms) {
+				return
+			}
+		}
+	}
+	// long expressions: every leaf's term must come back, whatever the depth
+	sizes := append([]int{}, longSizes...)
+	if c.Thorough() {
+		sizes = append(sizes, longSizesThorough...)
+	}
+	c.Bound("S4", map[string]any{"sizes": sizes, "atoms": distinctAtoms, "families": "chains, balanced trees, alternating nests"})
+	for _, n := range sizes {
+		lt := LongTrees(n, len(distinctAtoms))
+		var names []string
+		for name := range lt {
+			names = append(names, name)
+		}
+		sortStrings(names)
+		for _, name := range names {
+			if !treeCase(lt[name], distinctAtoms) {
 				return
 			}
 		}
